@@ -6,7 +6,7 @@ SPEC = {
     "allowed_axioms": [],
     "harness_pkg": "hx_txn",
     "harness_bin": "c24",
-    "n": {"quick": 500, "thorough": 8000},
+    "n": {"quick": 1000, "thorough": 12000},
     "harness_timeout": {"quick": 900, "thorough": 3000},
     "trusted_base": [
         "Coq 8.16.1 kernel + vm_compute (no native_compute); coqchk re-check in the thorough tier",
